@@ -15,6 +15,8 @@ structure St where
   jtoks : Std.HashMap String (List String) := {}
   cfg : GenCfg := {}
   lib : LibCfg := {}
+  /-- buffer.go hands slices out as `b[off:]` (open capacity); flips when the 3-index fix lands -/
+  bufOpen : Bool := true
   /-- "" = the property's own acceptance; "nopanic" = C02: an outcome is accepted iff it is not a panic -/
   mode : String := ""
 
